@@ -155,7 +155,8 @@ Verdict judgeRound(const Case& c) {
 void genPathsInto(Case& c, const std::string& key, int maxPaths, int maxPts, int64_t M, bool allowEmpty) {
   GEN::DegPool pool;
   Paths64 pp = GEN::degPaths(maxPaths, maxPts, M, pool);
-  if (G::chance(1)) { pp = GEN::degPaths(24, 30, M, pool); ST.count("large_path_set"); }   // array sizes in the hundreds / thousands of elements
+  if (G::chance(1)) { pp = GEN::degPaths(24, 30, M, pool); ST.count("large_path_set"); }
+  else if (G::chance(1)) { pp = GEN::degPaths(400, 4, std::max<int64_t>(M, 1000), pool); ST.count("many_small_paths"); }   // path COUNT in the hundreds   // array sizes in the hundreds / thousands of elements
   if (!allowEmpty) { Paths64 r; for (auto& p : pp) if (!p.empty()) r.push_back(p); pp = r; }
   c.p[key] = pp;
   Paths64 zz;
